@@ -341,9 +341,6 @@ class Writer(BaseValidator):
             self._delegated_writer = rowio.FixedRowWriter(target, data_format, self._field_names_and_lengths)
         else:
             raise NotImplementedError("data_format=%r" % data_format.format)
-        for check in self.cid.check_map.values():
-            check.reset()
-        self._has_reset_checks = True
 
     @property
     def location(self):
